@@ -112,7 +112,7 @@ def run(tier, seed):
     # the reference decoder / encoder is checked for internal consistency on the request message space
     dc.gen_messages(chk, "C35_ref", {"Mode": "request", "FlagIdx": {1} if q else range(1, 4), "QIdx": range(1, 12), "RRIdx": range(1, 4),
                                      "ArIdx": range(1, 6), "CntIdx": {1, 2}, "CutSet": {0, 1}, "MaxAn": 1})
-    general, trunc, big = build_corpus(rng, 120 if q else 3000, 25 if q else 300)
+    general, trunc, big = build_corpus(rng, 120 if q else 1200, 25 if q else 150)
     groups = [("general", general, None), ("truncated", trunc, KEY_TRUNC), ("beyond16k", big, KEY_PTR16K)]
     for gname, scen, key in groups:
         outs = vkit.run_driver(exe, [{k: v for k, v in s.items() if not k.startswith("_")} for s in scen], timeout=900)
